@@ -222,6 +222,31 @@ theorem cellAtPoint_contains (q : Quant K) (hq : LawfulQuant q) (h : HF3 K) (hi 
   push_cast at hx hz ⊢
   exact ⟨⟨hx.1, le_of_lt hx.2⟩, ⟨hz.1, le_of_lt hz.2⟩⟩
 
+/-- non-vacuity of `LawfulQuant`: the rational floor -/
+example : LawfulQuant (K := ℚ) ⟨Rat.floor, Rat.ceil, fun i => (i : ℚ)⟩ :=
+  ⟨fun _ => rfl, fun x => Rat.floor_le x, fun x => by have := Rat.lt_floor_add_one x; push_cast at this; exact this⟩
+
+/-- non-vacuity of `cellAtPoint_contains` / `walkStep_tracks_ray`: a 4 × 4 field of unit cells (scale 4), centre exactly on
+the grid POINT `(1, ·, 1)` moving towards `-x` and `+z/2`: the start cell is `(3, 3)` (the point is on its low corner), the
+boundary times are exactly `0` (the `x` line under the centre) and `2`, and the cell moves to column 2 — the lattice start
+that a strict `toi_x > 0.0` test loses. -/
+example :
+    let q : Quant ℚ := ⟨Rat.floor, Rat.ceil, fun i => (i : ℚ)⟩
+    let h : HF3 ℚ := ⟨4, 4, ⟨4, 1, 4⟩, ⟨⟨-2, 0, -2⟩, ⟨2, 1, 2⟩⟩⟩
+    letI := fieldNum ℚ id
+    cellAtPoint q h ⟨1, 1 / 2, 1⟩ = (3, 3) ∧
+    boundaryTime (signedXAt q h) 3 1 (-1) = 0 ∧ boundaryTime (signedZAt q h) 3 1 (1 / 2) = 2 ∧
+    cellMove (⟨-1, 0, 1 / 2⟩ : V3 ℚ) (nmax 0 0) (nmax 2 0) = some (0, -1) := by
+  refine ⟨?_, ?_, ?_, ?_⟩
+  · simp only [cellAtPoint, quantFloor, unitCellWidth, unitCellHeight, fieldNum_lit]
+    norm_num
+    first | rfl | decide
+  · simp only [boundaryTime, signedXAt, unitCellWidth, fieldNum_lit]
+    norm_num
+  · simp only [boundaryTime, signedZAt, unitCellHeight, fieldNum_lit]
+    norm_num
+  · decide +kernel
+
 /-- a step that goes on moves the cell by the `cellMove` of its boundary times (any scalar type) -/
 theorem stepWith_cont_cell {K : Type} [Num K] (h : HF3 K) (d : V3 K) (maxToi tx tz : K) (s s' : St)
     (hstep : stepWith h d maxToi tx tz s = .cont s') :
@@ -295,5 +320,332 @@ theorem walkStep_tracks_ray (q : Quant K) (hq : LawfulQuant q) (h : HF3 K) (hi :
       have e2 : di = sgnI d.z := by rw [hdi, if_pos (le_of_lt hgt)]
       rw [e1, e2, min_eq_right (le_of_lt hgt), add_zero]
       exact ⟨ax2 rz az1 (le_of_lt hgt), az3⟩
+
+/-- The end-to-end statement that is NOT proved here: whenever the (loosened) box of the moving shape, translated by `t·vel`
+for some `t ∈ [0, max_time_of_impact]`, overlaps the open rectangle of an in-field cell `(i, j)` (and the vertical range of
+the field), the trace of the walk contains `(i, j)`.  Proved parts: the cell always moves (`cellMove_clamped_moves`), the
+walk follows the centre ray cell by cell (`walkStep_tracks_ray`, `cellAtPoint_contains`), the block of ranges around the
+centre's cell is covered by the trace at every step (`walkInit_covered`, `step_block_covered`, `walkLoop_covered`).  Missing:
+that the footprint of the box lies in the block whenever the centre lies in the block's cell (relation between the
+quantised box corners and the quantised centre), and the soundness of the three `break`s. -/
+def walk_covers_full (q : Quant K) (h : HF3 K) (aabb2 : Aabb3 K) (vel : V3 K) (maxToi : K) : Prop :=
+  ∀ (fuel : Nat) (out : List (Int × Int)), @walk K (fieldNum K sq) q false h aabb2 vel maxToi fuel = .done out →
+    ∀ (i j : Int) (t : K), 0 ≤ i → i < h.ni → 0 ≤ j → j < h.nj → 0 ≤ t → t ≤ maxToi →
+      aabb2.mins.x + t * vel.x < XL sq q h (j + 1) → XL sq q h j < aabb2.maxs.x + t * vel.x →
+      aabb2.mins.z + t * vel.z < ZL sq q h (i + 1) → ZL sq q h i < aabb2.maxs.z + t * vel.z →
+      aabb2.mins.y + t * vel.y < h.aabb.maxs.y → h.aabb.mins.y < aabb2.maxs.y + t * vel.y →
+      (i, j) ∈ out
+
+/-! ## the integer part: the block of cells around the centre's cell stays covered by the trace -/
+
+section block
+variable {K : Type} [Num K]
+
+/-- every in-field cell of the block `ri × rj` (half-open ranges) is in the trace -/
+def Covered (ni nj : Nat) (ri rj : Int × Int) (out : List (Int × Int)) : Prop :=
+  ∀ i j : Int, ri.1 ≤ i → i < ri.2 → rj.1 ≤ j → j < rj.2 → 0 ≤ i → i < ni → 0 ≤ j → j < nj → (i, j) ∈ out
+
+theorem mem_irange (a b x : Int) : x ∈ irange a b ↔ a ≤ x ∧ x < b := by
+  simp only [irange, List.mem_map, List.mem_range]
+  constructor
+  · rintro ⟨k, hk, rfl⟩; omega
+  · intro ⟨h1, h2⟩
+    exact ⟨(x - a).toNat, by omega, by omega⟩
+
+theorem mem_foldl_hitCell {α : Type} (ni nj : Nat) (f : α → Int × Int) (l : List α) (out : List (Int × Int)) (c : Int × Int) :
+    c ∈ l.foldl (fun acc a => hitCell ni nj acc (f a).1 (f a).2) out ↔
+      c ∈ out ∨ ∃ a ∈ l, f a = c ∧ 0 ≤ c.1 ∧ 0 ≤ c.2 ∧ c.1 < ni ∧ c.2 < nj := by
+  induction l generalizing out with
+  | nil => simp
+  | cons a l ih =>
+    rw [List.foldl_cons, ih]
+    simp only [hitCell, List.mem_cons]
+    constructor
+    · rintro (h | ⟨b, hb, h⟩)
+      · split at h
+        · rename_i hc
+          rcases List.mem_append.1 h with h | h
+          · exact Or.inl h
+          · right
+            refine ⟨a, Or.inl rfl, ?_⟩
+            have : c = ((f a).1, (f a).2) := by simpa using h
+            subst this
+            exact ⟨rfl, hc⟩
+        · exact Or.inl h
+      · exact Or.inr ⟨b, Or.inr hb, h⟩
+    · rintro (h | ⟨b, hb | hb, h⟩)
+      · left; split
+        · exact List.mem_append.2 (Or.inl h)
+        · exact h
+      · subst hb
+        left
+        obtain ⟨rfl, h⟩ := h
+        rw [if_pos h]
+        exact List.mem_append.2 (Or.inr (by simp))
+      · exact Or.inr ⟨b, hb, h⟩
+
+/-- the trace of one step, spelled out -/
+theorem stepWith_cont_spec (h : HF3 K) (d : V3 K) (maxToi tx tz : K) (s s' : St)
+    (hstep : stepWith h d maxToi tx tz s = .cont s') :
+    ∃ di dj : Int, cellMove d tx tz = some (di, dj) ∧ ¬ (di = 0 ∧ dj = 0) ∧
+      s'.cell = (s.cell.1 + di, s.cell.2 + dj) ∧ s'.ri = (s.ri.1 + di, s.ri.2 + di) ∧ s'.rj = (s.rj.1 + dj, s.rj.2 + dj) ∧
+      s'.out =
+        (let ri : Int × Int := (s.ri.1 + di, s.ri.2 + di)
+         let rj : Int × Int := (s.rj.1 + dj, s.rj.2 + dj)
+         let newI := if 0 < di then ri.2 - 1 else ri.1
+         let newJ := if 0 < dj then rj.2 - 1 else rj.1
+         let ignI : Bool := decide (newI < 0) || decide ((h.ni : Int) ≤ newI)
+         let ignJ : Bool := decide (newJ < 0) || decide ((h.nj : Int) ≤ newJ)
+         let out1 := if !ignI && di ≠ 0 then (irange rj.1 rj.2).foldl (fun acc j => hitCell h.ni h.nj acc newI j) s.out else s.out
+         if !ignJ && dj ≠ 0 then (irange ri.1 ri.2).foldl (fun acc i => hitCell h.ni h.nj acc i newJ) out1 else out1) := by
+  unfold stepWith at hstep
+  split at hstep
+  · cases hstep
+  · split at hstep
+    · cases hstep
+    · rename_i di dj hcm
+      refine ⟨di, dj, hcm, ?_⟩
+      split at hstep
+      · cases hstep
+      · rename_i hne
+        simp only at hstep
+        split at hstep
+        · cases hstep
+        · injection hstep with hstep
+          subst hstep
+          exact ⟨hne, rfl, rfl, rfl, rfl⟩
+
+theorem cellMove_range (d : V3 K) (tx tz : K) (di dj : Int) (hcm : cellMove d tx tz = some (di, dj)) :
+    (di = -1 ∨ di = 0 ∨ di = 1) ∧ (dj = -1 ∨ dj = 0 ∨ dj = 1) := by
+  unfold cellMove sgn at hcm
+  simp only at hcm
+  split at hcm
+  · cases hcm
+  · cases hcm
+  · rename_i a b ha hb
+    injection hcm with hcm
+    injection hcm with e1 e2
+    subst e1 e2
+    constructor
+    · split at hb
+      · split at hb
+        · injection hb with hb; omega
+        · split at hb
+          · injection hb with hb; omega
+          · cases hb
+      · injection hb with hb; omega
+    · split at ha
+      · split at ha
+        · injection ha with ha; omega
+        · split at ha
+          · injection ha with ha; omega
+          · cases ha
+      · injection ha with ha; omega
+
+/-- **Block coverage is preserved by a step.**  If every in-field cell of `range_i × range_j` is in the trace before the
+step, the same holds for the shifted ranges after it, and nothing is lost from the trace: the row and the column that
+enter the block are tested along the whole (already shifted) other range — including the corner cell when the walk steps
+diagonally through a grid point. -/
+theorem step_block_covered (h : HF3 K) (d : V3 K) (maxToi tx tz : K) (s s' : St)
+    (hstep : stepWith h d maxToi tx tz s = .cont s') (hcov : Covered h.ni h.nj s.ri s.rj s.out) :
+    Covered h.ni h.nj s'.ri s'.rj s'.out ∧ ∀ c ∈ s.out, c ∈ s'.out := by
+  obtain ⟨di, dj, hcm, -, -, hri, hrj, hout⟩ := stepWith_cont_spec h d maxToi tx tz s s' hstep
+  obtain ⟨hdi, hdj⟩ := cellMove_range d tx tz di dj hcm
+  simp only at hout
+  -- membership in the new trace
+  have key : ∀ c : Int × Int, c ∈ s'.out ↔
+      (c ∈ s.out ∨
+        (di ≠ 0 ∧ c.1 = (if 0 < di then s.ri.2 + di - 1 else s.ri.1 + di) ∧ s.rj.1 + dj ≤ c.2 ∧ c.2 < s.rj.2 + dj ∧
+          0 ≤ c.1 ∧ 0 ≤ c.2 ∧ c.1 < h.ni ∧ c.2 < h.nj)) ∨
+        (dj ≠ 0 ∧ c.2 = (if 0 < dj then s.rj.2 + dj - 1 else s.rj.1 + dj) ∧ s.ri.1 + di ≤ c.1 ∧ c.1 < s.ri.2 + di ∧
+          0 ≤ c.1 ∧ 0 ≤ c.2 ∧ c.1 < h.ni ∧ c.2 < h.nj) := by
+    intro c
+    rw [hout]
+    generalize (if 0 < di then s.ri.2 + di - 1 else s.ri.1 + di) = nI
+    generalize (if 0 < dj then s.rj.2 + dj - 1 else s.rj.1 + dj) = nJ
+    have hrow : ∀ (o : List (Int × Int)) (i0 : Int) (a b : Int),
+        c ∈ (irange a b).foldl (fun acc j => hitCell h.ni h.nj acc i0 j) o ↔
+          c ∈ o ∨ (c.1 = i0 ∧ a ≤ c.2 ∧ c.2 < b ∧ 0 ≤ c.1 ∧ 0 ≤ c.2 ∧ c.1 < h.ni ∧ c.2 < h.nj) := by
+      intro o i0 a b
+      rw [mem_foldl_hitCell h.ni h.nj (fun j => (i0, j)) (irange a b) o c]
+      constructor
+      · rintro (h1 | ⟨j, hj, rfl, h2⟩)
+        · exact Or.inl h1
+        · rw [mem_irange] at hj; exact Or.inr ⟨rfl, hj.1, hj.2, h2⟩
+      · rintro (h1 | ⟨e, h2, h3, h4⟩)
+        · exact Or.inl h1
+        · exact Or.inr ⟨c.2, (mem_irange _ _ _).2 ⟨h2, h3⟩, by rw [← e], h4⟩
+    have hcol : ∀ (o : List (Int × Int)) (j0 : Int) (a b : Int),
+        c ∈ (irange a b).foldl (fun acc i => hitCell h.ni h.nj acc i j0) o ↔
+          c ∈ o ∨ (c.2 = j0 ∧ a ≤ c.1 ∧ c.1 < b ∧ 0 ≤ c.1 ∧ 0 ≤ c.2 ∧ c.1 < h.ni ∧ c.2 < h.nj) := by
+      intro o j0 a b
+      rw [mem_foldl_hitCell h.ni h.nj (fun i => (i, j0)) (irange a b) o c]
+      constructor
+      · rintro (h1 | ⟨j, hj, rfl, h2⟩)
+        · exact Or.inl h1
+        · rw [mem_irange] at hj; exact Or.inr ⟨rfl, hj.1, hj.2, h2⟩
+      · rintro (h1 | ⟨e, h2, h3, h4⟩)
+        · exact Or.inl h1
+        · exact Or.inr ⟨c.1, (mem_irange _ _ _).2 ⟨h2, h3⟩, by rw [← e], h4⟩
+    have hR : ∀ o : List (Int × Int),
+        c ∈ (if (!(decide (nI < 0) || decide ((h.ni : Int) ≤ nI)) && decide (di ≠ 0)) = true
+              then (irange (s.rj.1 + dj) (s.rj.2 + dj)).foldl (fun acc j => hitCell h.ni h.nj acc nI j) o else o) ↔
+          c ∈ o ∨ (di ≠ 0 ∧ c.1 = nI ∧ s.rj.1 + dj ≤ c.2 ∧ c.2 < s.rj.2 + dj ∧ 0 ≤ c.1 ∧ 0 ≤ c.2 ∧ c.1 < h.ni ∧ c.2 < h.nj) := by
+      intro o
+      by_cases hI : (!(decide (nI < 0) || decide ((h.ni : Int) ≤ nI)) && decide (di ≠ 0)) = true
+      · rw [if_pos hI, hrow]
+        simp only [Bool.and_eq_true, Bool.not_eq_true', Bool.or_eq_false_iff, decide_eq_false_iff_not, decide_eq_true_eq] at hI
+        constructor
+        · rintro (h1 | h1)
+          · exact Or.inl h1
+          · exact Or.inr ⟨hI.2, h1⟩
+        · rintro (h1 | h1)
+          · exact Or.inl h1
+          · exact Or.inr h1.2
+      · rw [if_neg hI]
+        constructor
+        · intro h1; exact Or.inl h1
+        · rintro (h1 | ⟨hd, e, -, -, h5, -, h7, -⟩)
+          · exact h1
+          · exfalso; apply hI
+            simp only [Bool.and_eq_true, Bool.not_eq_true', Bool.or_eq_false_iff, decide_eq_false_iff_not, decide_eq_true_eq]
+            exact ⟨⟨by omega, by omega⟩, hd⟩
+    have hC : ∀ o : List (Int × Int),
+        c ∈ (if (!(decide (nJ < 0) || decide ((h.nj : Int) ≤ nJ)) && decide (dj ≠ 0)) = true
+              then (irange (s.ri.1 + di) (s.ri.2 + di)).foldl (fun acc i => hitCell h.ni h.nj acc i nJ) o else o) ↔
+          c ∈ o ∨ (dj ≠ 0 ∧ c.2 = nJ ∧ s.ri.1 + di ≤ c.1 ∧ c.1 < s.ri.2 + di ∧ 0 ≤ c.1 ∧ 0 ≤ c.2 ∧ c.1 < h.ni ∧ c.2 < h.nj) := by
+      intro o
+      by_cases hJ : (!(decide (nJ < 0) || decide ((h.nj : Int) ≤ nJ)) && decide (dj ≠ 0)) = true
+      · rw [if_pos hJ, hcol]
+        simp only [Bool.and_eq_true, Bool.not_eq_true', Bool.or_eq_false_iff, decide_eq_false_iff_not, decide_eq_true_eq] at hJ
+        constructor
+        · rintro (h1 | h1)
+          · exact Or.inl h1
+          · exact Or.inr ⟨hJ.2, h1⟩
+        · rintro (h1 | h1)
+          · exact Or.inl h1
+          · exact Or.inr h1.2
+      · rw [if_neg hJ]
+        constructor
+        · intro h1; exact Or.inl h1
+        · rintro (h1 | ⟨hd, e, -, -, -, h6, -, h8⟩)
+          · exact h1
+          · exfalso; apply hJ
+            simp only [Bool.and_eq_true, Bool.not_eq_true', Bool.or_eq_false_iff, decide_eq_false_iff_not, decide_eq_true_eq]
+            exact ⟨⟨by omega, by omega⟩, hd⟩
+    rw [hC, hR]
+  constructor
+  · intro i j h1 h2 h3 h4 h5 h6 h7 h8
+    rw [hri] at h1 h2
+    rw [hrj] at h3 h4
+    simp only at h1 h2 h3 h4
+    rw [key]
+    by_cases hiold : s.ri.1 ≤ i ∧ i < s.ri.2
+    · by_cases hjold : s.rj.1 ≤ j ∧ j < s.rj.2
+      · exact Or.inl (Or.inl (hcov i j hiold.1 hiold.2 hjold.1 hjold.2 h5 h6 h7 h8))
+      · right
+        refine ⟨by omega, ?_, h1, h2, h5, h7, h6, h8⟩
+        show j = _
+        split <;> omega
+    · left; right
+      refine ⟨by omega, ?_, h3, h4, h5, h7, h6, h8⟩
+      show i = _
+      split <;> omega
+  · intro c hc
+    rw [key]; exact Or.inl (Or.inl hc)
+
+/-- membership in the trace of the initial block (the nested `for i … for j …` over the clamped ranges) -/
+theorem mem_foldl_block (ni nj : Nat) (cj : List Int) (ci : List Int) (out : List (Int × Int)) (c : Int × Int) :
+    c ∈ ci.foldl (fun acc i => cj.foldl (fun acc j => hitCell ni nj acc i j) acc) out ↔
+      c ∈ out ∨ (c.1 ∈ ci ∧ c.2 ∈ cj ∧ 0 ≤ c.1 ∧ 0 ≤ c.2 ∧ c.1 < ni ∧ c.2 < nj) := by
+  induction ci generalizing out with
+  | nil => simp
+  | cons i ci ih =>
+    rw [List.foldl_cons, ih, mem_foldl_hitCell ni nj (fun j => (i, j)) cj out c]
+    simp only [List.mem_cons]
+    constructor
+    · rintro ((h | ⟨j, hj, rfl, h⟩) | h)
+      · exact Or.inl h
+      · exact Or.inr ⟨Or.inl rfl, hj, h⟩
+      · exact Or.inr ⟨Or.inr h.1, h.2⟩
+    · rintro (h | ⟨h1 | h1, h2, h3⟩)
+      · exact Or.inl (Or.inl h)
+      · left; right
+        exact ⟨c.2, h2, by rw [← h1], h3⟩
+      · exact Or.inr ⟨h1, h2, h3⟩
+
+/-- clamping a range to the field keeps its in-field members -/
+theorem mem_irange_clamp (a b : Int) (n : Nat) (x : Int) (h1 : a ≤ x) (h2 : x < b) (h3 : 0 ≤ x) (h4 : x < n) :
+    x ∈ irange (iclamp a 0 n) (iclamp b 0 n) := by
+  rw [mem_irange]; unfold iclamp
+  constructor <;> split <;> (try split) <;> omega
+
+/-- **The initial block is covered**: before the loop, every in-field cell of the (enlarged, unclamped) ranges is in the
+trace — clamping the ranges to the field loses nothing. -/
+theorem walkInit_covered (q : Quant K) (h : HF3 K) (aabb2 : Aabb3 K) (vel : V3 K) (maxToi : K) (o : V3 K) (s0 : St)
+    (hinit : walkInit q h aabb2 vel maxToi = some (o, s0)) : Covered h.ni h.nj s0.ri s0.rj s0.out := by
+  unfold walkInit at hinit
+  simp only at hinit
+  split at hinit
+  · cases hinit
+  · injection hinit with hinit
+    injection hinit with _ hs
+    subst hs
+    intro i j h1 h2 h3 h4 h5 h6 h7 h8
+    simp only at h1 h2 h3 h4 ⊢
+    rw [mem_foldl_block]
+    right
+    refine ⟨?_, ?_, h5, h7, h6, h8⟩
+    · exact mem_irange_clamp _ _ _ _ h1 h2 h5 h6
+    · exact mem_irange_clamp _ _ _ _ h3 h4 h7 h8
+
+/-- **Block coverage is an invariant of the whole loop** (corrected and pinned step alike, any fuel): starting from a covered
+state, nothing is ever lost from the trace, and the walk ends (for whatever reason) in a state whose block is covered by
+the final trace. -/
+theorem walkLoop_covered (h : HF3 K) (d : V3 K) (maxToi : K) (tx tz : St → K) (n : Nat) (s : St)
+    (hcov : Covered h.ni h.nj s.ri s.rj s.out) :
+    (∀ c ∈ s.out, c ∈ (walkLoop (fun s => stepWith h d maxToi (tx s) (tz s) s) n s).trace) ∧
+    ∃ sl : St, Covered h.ni h.nj sl.ri sl.rj sl.out ∧ (∀ c ∈ sl.out, c ∈ (walkLoop (fun s => stepWith h d maxToi (tx s) (tz s) s) n s).trace) := by
+  induction n generalizing s with
+  | zero => exact ⟨fun c hc => hc, s, hcov, fun c hc => hc⟩
+  | succ n ih =>
+    unfold walkLoop
+    split
+    · rename_i out hst
+      have : out = s.out := by
+        unfold stepWith at hst
+        split at hst
+        · injection hst with hst; exact hst.symm
+        · split at hst
+          · cases hst
+          · split at hst
+            · injection hst with hst; exact hst.symm
+            · simp only at hst
+              split at hst
+              · injection hst with hst; exact hst.symm
+              · cases hst
+      subst this
+      exact ⟨fun c hc => hc, s, hcov, fun c hc => hc⟩
+    · rename_i out hst
+      have : out = s.out := by
+        unfold stepWith at hst
+        split at hst
+        · cases hst
+        · split at hst
+          · injection hst with hst; exact hst.symm
+          · split at hst
+            · cases hst
+            · simp only at hst
+              split at hst
+              · cases hst
+              · cases hst
+      subst this
+      exact ⟨fun c hc => hc, s, hcov, fun c hc => hc⟩
+    · rename_i s' hst
+      obtain ⟨hc', hmono⟩ := step_block_covered h d maxToi (tx s) (tz s) s s' hst hcov
+      obtain ⟨i1, sl, i2, i3⟩ := ih s' hc'
+      exact ⟨fun c hc => i1 c (hmono c hc), sl, i2, i3⟩
+
+end block
 
 end C06
